@@ -25,6 +25,8 @@
 //   alg <cs> <T> <l1> <l2> v0 .. | w0 ..      (value pixels p1: layout l1 values v, p2: layout l2 values w)
 //        -> fill= gen= fe1= fe2= fe3= tr1= tr2= min= max= minat= maxat= eq= cp=   (fe*, tr*, eq, cp: one result per overload / model
 //           combination, joined by '/': every source mutable and const, value and planar reference; destinations value and planar)
+//   alg3 <cs> <T> <l1> <l2> <l3> v0 .. | w0 .. | u0 ..   (three layouts, aliased arguments: see alg3_h)
+//        -> tr2= trs= fe3= fes2= fes3= eqs= cps= fillp= genp=
 #include <boost/gil.hpp>
 #include "harness.hpp"
 #include <memory>
@@ -257,6 +259,103 @@ template <typename T, typename L1, typename L2> static string alg_h(std::vector<
     return out;
 }
 
+#if HAS(8) || HAS(9)
+// alg3: THREE layouts (first source L1 holding v, second source L2 holding w, destination / third colour base L3 holding u), every
+// combination including equal types for any subset, every const / mutable overload, value and planar-reference models, and ALIASED
+// arguments (the destination IS the first source, IS the second source, the two sources are one object, all three are one object).
+//   tr2: static_transform(a, b, d): d fresh (every destination model of L3); if L1 == L3 also d = a (accumulate in place: value pixel and
+//        planar reference, first source passed as mutable and as const view of the same object); if L2 == L3 also d = b
+//   trs: (L1 == L2) both sources are the SAME object (4 const combinations), d fresh; if also L3 == L1 all three the same object
+//   fe3: static_for_each(a, b, c) for every model / constness of the three
+//   only when L1 == L2 == L3: fes2 / fes3 static_for_each(x, x) / (x, x, x), eqs static_equal(x, x), cps static_copy(x, x),
+//        fillp / genp static_fill / static_generate on a planar reference (mutable and const reference object)
+template <typename T, typename L1, typename L2, typename L3> static string alg3_h(std::vector<double> v, std::vector<double> w, std::vector<double> u) {
+    constexpr int n = nchan<L1>(); using p1_t = gil::pixel<T, L1>; using p2_t = gil::pixel<T, L2>; using p3_t = gil::pixel<T, L3>;
+    using cs_t = typename L1::color_space_t; using pref_t = gil::planar_pixel_reference<T&, cs_t>;
+    using N = std::integral_constant<int, n>;
+    constexpr bool planar1 = n >= 2 && is_identity<L1>(), planar2 = n >= 2 && is_identity<L2>(), planar3 = n >= 2 && is_identity<L3>();
+    constexpr bool same12 = std::is_same<L1, L2>::value, same13 = std::is_same<L1, L3>::value, same23 = std::is_same<L2, L3>::value;
+    if ((int)v.size() != n || (int)w.size() != n || (int)u.size() != n) return "bad-op";
+    p1_t p1; put(p1, v); p2_t p2; put(p2, w); p3_t p3; put(p3, u);
+    T pl1[n], pl2[n], pl3[n]; for (int i = 0; i < n; ++i) { pl1[i] = (T)v[i]; pl2[i] = (T)w[i]; pl3[i] = (T)u[i]; }
+    auto rd = [&](T const* dp) { std::vector<double> r; for (int i = 0; i < n; ++i) r.push_back((double)dp[i]); return r; };
+    auto load = [&](T* dp, const std::vector<double>& x) { for (int i = 0; i < n; ++i) dp[i] = (T)x[i]; };
+    auto both = [](auto& x, auto f) { f(x); f(std::as_const(x)); };
+    auto for_p1 = [&](auto f) { both(p1, f); if constexpr (planar1) { pref_t r = make_planar<pref_t>(pl1, N{}); both(r, f); } };
+    auto for_p2 = [&](auto f) { both(p2, f); if constexpr (planar2) { pref_t r = make_planar<pref_t>(pl2, N{}); both(r, f); } };
+    auto for_p3 = [&](auto f) { both(p3, f); if constexpr (planar3) { pref_t r = make_planar<pref_t>(pl3, N{}); both(r, f); } };
+    auto for_dst = [&](auto f) {
+        { p3_t d; gil::static_fill(d, (T)0); f(d, [&] { return phys(d); }); }
+        if constexpr (planar3) { T dp[n]; for (int i = 0; i < n; ++i) dp[i] = (T)0; pref_t d = make_planar<pref_t>(dp, N{});
+            f(d, [&] { return rd(dp); });
+            pref_t const cd = make_planar<pref_t>(dp, N{}); for (int i = 0; i < n; ++i) dp[i] = (T)0;
+            f(cd, [&] { return rd(dp); }); }
+    };
+    string tr2, trs, fe3, fes2, fes3, eqs, cps, fillp, genp;
+    for_p1([&](auto& a) { for_p2([&](auto& b) {
+        for_dst([&](auto& d, auto read) { gil::static_transform(a, b, d, comb<T>{}); add(tr2, read()); });
+        for_p3([&](auto& c) { std::vector<double> s; gil::static_for_each(a, b, c, rec3{&s}); add(fe3, s); });
+    }); });
+    if constexpr (same13) for_p2([&](auto& b) {                 // the destination IS the first source
+        { p1_t acc = p1; gil::static_transform(acc, b, acc, comb<T>{}); add(tr2, phys(acc)); }
+        { p1_t acc = p1; gil::static_transform(std::as_const(acc), b, acc, comb<T>{}); add(tr2, phys(acc)); }
+        if constexpr (planar1) {
+            { T dp[n]; load(dp, v); pref_t r = make_planar<pref_t>(dp, N{}); gil::static_transform(r, b, r, comb<T>{}); add(tr2, rd(dp)); }
+            { T dp[n]; load(dp, v); pref_t r = make_planar<pref_t>(dp, N{}); gil::static_transform(std::as_const(r), b, r, comb<T>{}); add(tr2, rd(dp)); }
+        }
+    });
+    if constexpr (same23) for_p1([&](auto& a) {                 // the destination IS the second source
+        { p2_t acc = p2; gil::static_transform(a, acc, acc, comb<T>{}); add(tr2, phys(acc)); }
+        { p2_t acc = p2; gil::static_transform(a, std::as_const(acc), acc, comb<T>{}); add(tr2, phys(acc)); }
+        if constexpr (planar2) {
+            { T dp[n]; load(dp, w); pref_t r = make_planar<pref_t>(dp, N{}); gil::static_transform(a, r, r, comb<T>{}); add(tr2, rd(dp)); }
+            { T dp[n]; load(dp, w); pref_t r = make_planar<pref_t>(dp, N{}); gil::static_transform(a, std::as_const(r), r, comb<T>{}); add(tr2, rd(dp)); }
+        }
+    });
+    auto four = [](auto& x, auto g) { g(x, x); g(std::as_const(x), x); g(x, std::as_const(x)); g(std::as_const(x), std::as_const(x)); };
+    auto own1 = [&](auto f) { f(p1); if constexpr (planar1) { pref_t r = make_planar<pref_t>(pl1, N{}); f(r); } };
+    if constexpr (same12) {
+        own1([&](auto& x) { four(x, [&](auto& s1, auto& s2) {   // the two sources are ONE object
+            for_dst([&](auto& d, auto read) { gil::static_transform(s1, s2, d, comb<T>{}); add(trs, read()); }); }); });
+        if constexpr (same13) {                                 // all three are one object
+            auto selfv = [&](auto g) { p1_t acc = p1; g(acc); add(trs, phys(acc)); };
+            selfv([&](auto& x) { gil::static_transform(x, x, x, comb<T>{}); });
+            selfv([&](auto& x) { gil::static_transform(std::as_const(x), x, x, comb<T>{}); });
+            selfv([&](auto& x) { gil::static_transform(x, std::as_const(x), x, comb<T>{}); });
+            selfv([&](auto& x) { gil::static_transform(std::as_const(x), std::as_const(x), x, comb<T>{}); });
+            if constexpr (planar1) {
+                auto selfp = [&](auto g) { T dp[n]; load(dp, v); pref_t r = make_planar<pref_t>(dp, N{}); g(r); add(trs, rd(dp)); };
+                selfp([&](auto& x) { gil::static_transform(x, x, x, comb<T>{}); });
+                selfp([&](auto& x) { gil::static_transform(std::as_const(x), x, x, comb<T>{}); });
+                selfp([&](auto& x) { gil::static_transform(x, std::as_const(x), x, comb<T>{}); });
+                selfp([&](auto& x) { gil::static_transform(std::as_const(x), std::as_const(x), x, comb<T>{}); });
+            }
+        }
+    }
+    if constexpr (same12 && same13) {
+        own1([&](auto& x) {
+            four(x, [&](auto& s1, auto& s2) {
+                { std::vector<double> s; gil::static_for_each(s1, s2, rec2{&s}); add(fes2, s); }
+                both(x, [&](auto& s3) { std::vector<double> s; gil::static_for_each(s1, s2, s3, rec3{&s}); add(fes3, s); });
+                eqs += (eqs.empty() ? "" : "/") + std::to_string(gil::static_equal(s1, s2));
+            });
+        });
+        { p1_t acc = p1; gil::static_copy(acc, acc); add(cps, phys(acc)); }
+        { p1_t acc = p1; gil::static_copy(std::as_const(acc), acc); add(cps, phys(acc)); }
+        if constexpr (planar1) {
+            { T dp[n]; load(dp, v); pref_t r = make_planar<pref_t>(dp, N{}); gil::static_copy(r, r); add(cps, rd(dp)); }
+            { T dp[n]; load(dp, v); pref_t r = make_planar<pref_t>(dp, N{}); gil::static_copy(std::as_const(r), r); add(cps, rd(dp)); }
+            { T dp[n]; load(dp, v); pref_t r = make_planar<pref_t>(dp, N{}); gil::static_fill(r, (T)7); add(fillp, rd(dp)); }
+            { T dp[n]; load(dp, v); pref_t const r = make_planar<pref_t>(dp, N{}); gil::static_fill(r, (T)7); add(fillp, rd(dp)); }
+            { T dp[n]; load(dp, v); pref_t r = make_planar<pref_t>(dp, N{}); int c = 100; gil::static_generate(r, counter<T>{&c}); add(genp, rd(dp)); }
+            { T dp[n]; load(dp, v); pref_t const r = make_planar<pref_t>(dp, N{}); int c = 100; gil::static_generate(r, counter<T>{&c}); add(genp, rd(dp)); }
+        }
+    }
+    auto dash = [](const string& x) { return x.empty() ? string("-") : x; };
+    return "tr2=" + tr2 + " trs=" + dash(trs) + " fe3=" + fe3 + " fes2=" + dash(fes2) + " fes3=" + dash(fes3) + " eqs=" + dash(eqs)
+         + " cps=" + dash(cps) + " fillp=" + dash(fillp) + " genp=" + dash(genp);
+}
+#endif
 // ---------------------------------------------------------------- packed / bit-aligned family
 // bits per colour (colour-space order) -> ChannelBitSizes in memory order for layout L
 template <typename L, typename SizesByColour> struct phys_sizes {
@@ -418,6 +517,24 @@ template <typename Ls> static string algs(const std::vector<string>& w) {
     }
     return out;
 }
+#if HAS(8) || HAS(9)
+#ifndef L3SEL
+#define L3SEL -1
+#endif
+template <typename Ls> static string algs3(const std::vector<string>& w) {
+    string out = "bad-op"; std::vector<string> rest(w.begin() + 6, w.end());
+    std::vector<double> a, b, c;
+    { int k = 0; for (auto& x : rest) { if (x == "|") { ++k; continue; } (k == 0 ? a : k == 1 ? b : c).push_back((double)hv::to_ll(x)); } }
+#if L3SEL >= 0
+    using L3s = mp11::mp_list<mp11::mp_at_c<Ls, L3SEL>>;
+#else
+    using L3s = Ls;
+#endif
+    for_type(w[2], [&](auto t) { for_layout_pairs<Ls>(w[3], w[4], [&](auto l1, auto l2) {
+        mp11::mp_for_each<L3s>([&](auto l3) { if (w[5] == lname<decltype(l3)>::get()) out = alg3_h<decltype(t), decltype(l1), decltype(l2), decltype(l3)>(a, b, c); }); }); });
+    return out;
+}
+#endif
 template <typename Ls, typename Sz> static string packed(const std::vector<string>& w) {
     string out = "bad-op"; std::vector<double> a, b;
     if (w[0] == "pair" && w.size() > 7) {
@@ -444,6 +561,18 @@ int main() {
 #endif
 #if HAS(7)
             if (cs == "rgba" && t == "s5551w") return spare<std::uint32_t, rgba_ls, sz<5, 5, 5, 1>>(w);
+#endif
+            return "bad-op";
+        }
+        if (w[0] == "alg3") {
+            if (w.size() < 7) return "bad-op";
+#if HAS(8)
+            if (cs == "rgb") return algs3<rgb_ls>(w); if (cs == "cmyk") return algs3<cmyk_ls>(w); if (cs == "gray") return algs3<gray_ls>(w);
+            if (cs == "devicen2") return algs3<dn2_ls>(w); if (cs == "devicen3") return algs3<dn3_ls>(w);
+            if (cs == "devicen4") return algs3<dn4_ls>(w); if (cs == "devicen5") return algs3<dn5_ls>(w);
+#endif
+#if HAS(9)
+            if (cs == "rgba") return algs3<rgba_ls>(w);
 #endif
             return "bad-op";
         }
